@@ -12,7 +12,7 @@ IsPanic(o) == "panic" \in DOMAIN o
 \* structural diagnosis of the case (cause tags for reason keys)
 Kids(e) ==
   CASE e.k = "bin" -> <<e.l, e.r>> [] e.k = "not" -> <<e.e>> [] e.k = "between" -> <<e.e, e.a, e.b>>
-    [] e.k \in {"like", "isnull", "cast", "insub"} -> <<e.e>>
+    [] e.k \in {"like", "isnull", "cast", "insub", "asenum"} -> <<e.e>>
     [] e.k = "in" -> <<e.e>> \o e.vs [] e.k = "fn" -> e.args [] e.k = "tuple" -> e.es
     [] e.k = "case" -> [i \in 1..(2 * Len(e.whens)) |-> IF i % 2 = 1 THEN e.whens[(i + 1) \div 2].c ELSE e.whens[i \div 2].r]
                        \o (IF "else" \in DOMAIN e THEN <<e.else>> ELSE <<>>)
